@@ -12,7 +12,9 @@ from authlib.oauth1.rfc5849.errors import OAuth1Error
 
 RULE = ("one case = one history of initiate / approve-deny / exchange / access / advance-clock requests against the real OAuth 1 provider core with in-memory "
         "hooks (2 clients, 2 users; HMAC-SHA1 and PLAINTEXT configured or not), requests signed by the library's own client with right, wrong or absent secrets; "
-        "references are mostly the credentials really handed out; every step output and the final store are compared with the Lean state machine")
+        "references are mostly the credentials really handed out; every step output and the final store are compared with the Lean state machine; "
+        "plus the Flask and Django integrations built with every subset of the three signature methods configured, each asked for a temporary credential and for a "
+        "resource with each method (oracle only)")
 ASSUMPTIONS = ["signatures are abstracted in the model to 'which (client secret, token secret) pair the signer used' (C11 owns the signature itself)",
                "reference hooks = flask_oauth1.cache semantics (temporary credential by oauth_token only; nonce key nonce-timestamp-client[-token], set on check)"]
 
